@@ -181,7 +181,8 @@ Section Tree.
                     \/ (nil_attr_g var x = [(XSI_NIL, WP (PStr EventGen.TRUE_STR))] /\ exists p, x = VP p)).
     { unfold nil_attr_g. destruct Hnl as [Hn|Hp]; [left; rewrite Hn; reflexivity|].
       destruct (v_nillable var && negb (py_truthy x)); [right; split; [reflexivity|exact Hp]|left; reflexivity]. }
-    unfold den, g_prim, e_prim. cbn [item_of map].
+    assert (Ene : nil_attr_e var x = []) by (destruct H; reflexivity).
+    unfold den, g_prim, e_prim. rewrite Ene. cbn [item_of map].
     destruct Hcase as [E|[E [p Ex]]]; rewrite E; cbn [map].
     - split.
       + rewrite (denote_node _ [] _ [] eq_refl).
@@ -201,6 +202,17 @@ Section Tree.
       rewrite Hc. unfold nil_filter. cbn [filter fst]. rewrite split_xsi_nil.
       assert (Eq : qname_eqb q_xsi_nil q_xsi_nil = true) by (vm_compute; reflexivity).
       rewrite Eq. reflexivity.
+  Qed.
+
+  (* None in a nillable field: the element keeps xsi:nil (it has no content) *)
+  Lemma den_nil var : v_nillable var = true ->
+    den (g_prim c u var VNone) = [e_prim c u var VNone]
+    /\ attrs_present (item_of c (g_prim c u var VNone)) = true.
+  Proof.
+    intros Hn. unfold den, g_prim, e_prim, nil_attr_g, nil_attr_e. rewrite Hn. cbn [py_truthy negb andb item_of map].
+    split; [|reflexivity].
+    rewrite (denote_node _ _ _ [(Bind.split_qname XSI_NIL, [AText EventGen.TRUE_STR])]); [|reflexivity].
+    reflexivity.
   Qed.
 
   (* ---------------------------------------------------------------- attributes of one field *)
@@ -336,10 +348,19 @@ Section Tree.
                 flat_map den (g_field c u (gobj n) var x) = e_field c u (eobj n) var x
                 /\ forallb (fun k => attrs_present (item_of c k)) (g_field c u (gobj n) var x) = true).
       { intros var x Hin.
-        destruct (ps_src _ _ _ _ Hps _ Hin) as [Hvar [Hxn Hsrc]]. cbn [fst snd] in Hvar, Hxn, Hsrc.
+        destruct (ps_src _ _ _ _ Hps _ Hin) as [Hvar [Hok Hsrc]]. cbn [fst snd] in Hvar, Hsrc.
+        unfold okval in Hok. cbn [fst snd] in Hok.
+        assert (Hcase : x <> VNone \/ (x = VNone /\ v_nillable var = true)).
+        { destruct x; try (left; discriminate). destruct Hok as [H|H]; [congruence|right; split; [reflexivity|exact H]]. }
+        clear Hok. destruct Hcase as [Hxn|[-> Hnl]].
+        2:{ (* None in a nillable field *)
+            cbn [g_field e_field g_items e_items]. rewrite Hnl.
+            destruct (den_nil var Hnl) as [E1 E2].
+            apply (den_wrap var [g_prim c u var VNone] [e_prim c u var VNone]); cbn [flat_map forallb];
+              [rewrite E1; reflexivity|rewrite E2; reflexivity]. }
         cut (flat_map den (g_items c u (gobj n) var x) = e_items c u (eobj n) var x
              /\ forallb (fun k => attrs_present (item_of c k)) (g_items c u (gobj n) var x) = true).
-        { intros [E1 E2]. unfold g_field, e_field. destruct x eqn:Ex; try (split; reflexivity);
+        { intros [E1 E2]. unfold g_field, e_field. destruct x eqn:Ex; [congruence| | | | | |];
             rewrite <- Ex in *; apply (den_wrap var _ _ E1 E2). }
         assert (Hpr : forall y, enc_shape (v_format var) y -> (v_nillable var = false \/ exists p, y = VP p) ->
                   flat_map den [g_prim c u var y] = [e_prim c u var y]
@@ -366,17 +387,17 @@ Section Tree.
                 apply andb_true_iff in Hfv0 as [_ Hfl]. rewrite forallb_forall in Hfl. specialize (Hfl x Hil).
                 destruct (fits_item_class c u ok _ var k x Htys Hfl) as [cl' [fs' [Ex _]]].
                 destruct (Hobj x Hfl) as [E1 E2]. subst x. cbn [flat_map forallb]. rewrite E1, E2. split; reflexivity. }
-            unfold pair_whole in Hw. cbn [fst snd] in Hw. rewrite <- Hw in Hfv0. rename Hfv0 into Hfv. clear Hin Hxn Hw.
+            unfold pair_whole in Hw. cbn [fst snd] in Hw. rewrite <- Hw in Hfv0. rename Hfv0 into Hfv. clear Hin Hw.
             unfold Fits.fits_elem in Hfv. rewrite Htf in Hfv.
             destruct (v_factory var).
             * destruct x as [| |tt l| | | |]; try discriminate Hfv. apply andb_true_iff in Hfv as [_ Hfl].
-              rewrite forallb_forall in Hfl. clear Hpr.
+              rewrite forallb_forall in Hfl. clear Hpr Hxn.
               induction l as [|y l IHl]; [split; reflexivity|].
               cbn [map flat_map forallb]. destruct (Hobj y (Hfl y (or_introl eq_refl))) as [E1 E2].
               destruct (IHl (fun z Hz => Hfl z (or_intror Hz))) as [E3 E4].
               rewrite E1, E2, E3, E4. split; reflexivity.
             * destruct x as [| | |cl' fs'| | |] eqn:Ex;
-                try (unfold Fits.fits_item, vtype in Hfv; rewrite Htys in Hfv; discriminate Hfv); [split; reflexivity|].
+                try (unfold Fits.fits_item, vtype in Hfv; rewrite Htys in Hfv; discriminate Hfv); [congruence|].
               cbn [flat_map forallb]. destruct (Hobj _ Hfv) as [E1 E2]. rewrite E1, E2. split; reflexivity.
           + assert (Hit : forall y, fits_item c u ok (fits n) var y = true ->
                       g_item c u (gobj n) var y = g_prim c u var y /\ e_item c u (eobj n) var y = e_prim c u var y
@@ -397,7 +418,7 @@ Section Tree.
                 apply andb_true_iff in Hfv0 as [_ Hfl]. rewrite forallb_forall in Hfl. specialize (Hfl x Hil).
                 destruct (Hit x Hfl) as [_ [_ Hshx]]. destruct (Hitp x Hfl) as [p Ex]. subst x. rewrite Htf0.
                 apply (Hpr (VP p) Hshx). right. eexists; reflexivity. }
-            unfold pair_whole in Hw. cbn [fst snd] in Hw. rewrite <- Hw in Hfv0. rename Hfv0 into Hfv. clear Hin Hxn Hw.
+            unfold pair_whole in Hw. cbn [fst snd] in Hw. rewrite <- Hw in Hfv0. rename Hfv0 into Hfv. clear Hin Hw.
             unfold Fits.fits_elem in Hfv.
             destruct (v_tokens_factory var) as [tf|] eqn:Etf.
             * destruct (v_factory var) as [fa|] eqn:Efa.
@@ -405,7 +426,7 @@ Section Tree.
                  destruct l as [|y l']; [split; reflexivity|].
                  rewrite forallb_forall in Hfl.
                  destruct (fits_tokens_inv c u ok pyspace var tf y t Htys (Hfl y (or_introl eq_refl))) as [ty [ly [-> _]]].
-                 set (l := VList ty ly :: l') in *. clearbody l.
+                 clear Hxn. set (l := VList ty ly :: l') in *. clearbody l.
                  induction l as [|z l IHl]; [split; reflexivity|].
                  destruct (fits_tokens_inv c u ok pyspace var tf z t Htys (Hfl z (or_introl eq_refl))) as [tz [lz [-> [_ [Htk _]]]]].
                  cbn [map flat_map forallb]. fold (den (g_prim c u var (VList tz lz))).
@@ -423,7 +444,7 @@ Section Tree.
                  destruct y; try destruct Hy; apply (Hpr _ Hsh); left; apply (wf_elem_nonil_tokens var tf Hwe Etf).
             * destruct (v_factory var) as [fa|] eqn:Efa.
               -- destruct x as [| |tt l| | | |]; try discriminate Hfv. apply andb_true_iff in Hfv as [_ Hfl].
-                 rewrite forallb_forall in Hfl.
+                 rewrite forallb_forall in Hfl. clear Hxn.
                  induction l as [|y l IHl]; [split; reflexivity|].
                  destruct (Hit y (Hfl y (or_introl eq_refl))) as [E1 [E2 Hsh]].
                  cbn [map flat_map forallb]. rewrite E1, E2.
@@ -431,7 +452,7 @@ Section Tree.
                  destruct (den_prim var y Hsh) as [Ed1 Ed2]; [right; apply (Hitp y (Hfl y (or_introl eq_refl)))|].
                  rewrite Ed1, Ed2.
                  destruct (IHl (fun z Hz => Hfl z (or_intror Hz))) as [E3 E4]. rewrite E3, E4. split; reflexivity.
-              -- destruct x eqn:Ex; try (split; reflexivity).
+              -- destruct x eqn:Ex; try congruence.
                  all: destruct (Hit _ Hfv) as [_ [_ Hshx]]; destruct (Hitp _ Hfv) as [p0 Ep]; try discriminate Ep.
                  inversion Ep; subst. apply (Hpr (VP p0) Hshx). right. eexists; reflexivity.
         - destruct (wf_text_inv var Hwt) as [Hwtk [Hwt0 [t [Htys Hwtd]]]].
@@ -449,7 +470,7 @@ Section Tree.
               + unfold qleaf_ok in Hft. apply andb_true_iff in Hft as [_ Hq]. destruct p as [| | | | | |q1| |]; try discriminate Hq.
                 apply es_qname.
               + apply andb_true_iff in Hft as [Hp _]. eapply es_leaf; exact Hp. }
-          destruct x eqn:Ex; try (split; reflexivity);
+          destruct x eqn:Ex; try congruence;
             (cbn [flat_map forallb]; rewrite app_nil_r; rewrite den_data; [split; reflexivity|apply Hsh; discriminate]). }
       split.
       - apply flat_map_ext_in. intros [var x] Hvar. apply (Hper var x Hvar).
